@@ -460,6 +460,8 @@ def drive(sandbox, entry, case):
         if case.get('env') == 'before-and-after-code':
             # the instructor wraps the student's program between two snippets of her own
             return sbx.run(inputs=case.get('inputs'), before="pre_marker = 1", after="post_marker = 2")
+        if case.get('env') == 'only-the-import-is-threaded':
+            return sbx.run(inputs=case.get('inputs'), threaded=False)
         return sbx.run(inputs=case.get('inputs'))
     if entry == 'run-code':
         return sbx.run(code=case['mode_body'], inputs=case.get('inputs'))
@@ -791,6 +793,12 @@ def case_matrix(ctx, which):
                             c = dict(m)
                             c.update(entry=entry, tracer=tracer, threaded=threaded, position=pos, env=env)
                             cells.append(c)
+                        if which == 'C05' and threaded and entry == 'import':
+                            # the sandbox is set to run things under a time limit, but this execution is asked for without one:
+                            # only the import of the other file (which fails, or never ends) gets a thread and a limit
+                            c = dict(m)
+                            c.update(entry=entry, tracer=tracer, threaded=threaded, position=pos, env='only-the-import-is-threaded')
+                            cells.append(c)
     return cells
 
 
@@ -818,6 +826,8 @@ def _run(ctx, which):
     rng = ctx.rng
 
     def plain(c):
+        if c['env'] == 'only-the-import-is-threaded' and c['kind'] in ('timeout', 'base') and c['position'] == 'first':
+            return True                 # (every tracer style: the trace function is per thread, and two threads are involved)
         if c['kind'] == 'timeout':      # time limits exist only in threaded executions: every history position, plain configuration
             return c['tracer'] == 'none' and c['env'] == 'plain'
         return c['tracer'] == 'none' and not c['threaded'] and c['position'] == 'first' and c['env'] == 'plain'
